@@ -33,6 +33,19 @@ structure Cfg.Good (c : Cfg) : Prop where
   rollupWrapped : c.rollupWrapped = false
   /-- `memory_percent` rejects by membership in `list(pfullmem._fields)` -/
   pctByMembership : c.pctByMembership = true
+  /-- `int(x) * PAGESIZE`, `PAGESIZE = cext_posix.getpagesize()` -/
+  statmFixedScale : c.statmFixedScale = none
+  pagesizeFromSystem : c.pagesizeFromSystem = true
+  /-- `except (ProcessLookupError, FileNotFoundError)` -/
+  fallbackEnoent : c.fallbackEnoent = true
+  fallbackEsrch : c.fallbackEsrch = true
+  /-- statm is read after uss / pss / swap -/
+  basicFirst : c.basicFirst = false
+  /-- `if HAS_PROC_SMAPS_ROLLUP or HAS_PROC_SMAPS:` … `else: memory_full_info = memory_info`;
+      `if HAS_PROC_SMAPS:` around `memory_maps` -/
+  fullGuard : c.fullGuard = .rollupOrSmaps
+  fullElseIsInfo : c.fullElseIsInfo = true
+  mapsGuard : c.mapsGuard = .smaps
 
 /-! ### one step of `get_blocks` -/
 
